@@ -1230,11 +1230,18 @@ func requestWireProbes(c *Ctx) {
 	for _, proto := range []string{"connect", "grpc", "grpcweb"} {
 		for _, kind := range []string{"unary", "client"} {
 			for _, min := range []int{0, 256} {
-				for _, sizes := range [][]int{{10}, {300}, {10, 300, 10}} {
+				for _, sizes := range [][]int{{10}, {300}, {10, 300, 10}, {11}} {
 					if kind == "unary" && len(sizes) > 1 {
 						continue
 					}
+					reuse := sizes[0] == 11 // the Request value was used for a larger message before
+					if reuse && kind != "unary" {
+						continue
+					}
 					desc := fmt.Sprintf("%s %s request, send compression rle, compress-min-bytes %d, message sizes %v", proto, kind, min, sizes)
+					if reuse {
+						desc += " (the Request value carried a 300-byte message in an earlier call)"
+					}
 					c.Count("probe-request-wire")
 					got := safely(func() string {
 						cap := &bodyCapture{}
@@ -1250,7 +1257,14 @@ func requestWireProbes(c *Ctx) {
 						for i, n := range sizes {
 							msgs = append(msgs, bytes.Repeat([]byte{byte(65 + i)}, n))
 						}
-						if kind == "unary" {
+						if kind == "unary" && reuse {
+							// one Request value: a 300-byte message first, then this one
+							first := bytes.Repeat([]byte{90}, 300)
+							req := connect.NewRequest(&first)
+							_, _ = cl.CallUnary(context.Background(), req)
+							*req.Msg = msgs[0]
+							_, _ = cl.CallUnary(context.Background(), req)
+						} else if kind == "unary" {
 							_, _ = cl.CallUnary(context.Background(), connect.NewRequest(&msgs[0]))
 						} else {
 							st := cl.CallClientStream(context.Background())
